@@ -8,7 +8,9 @@ RULE = ('for every operation variant (add/streamed add/re-loosen, pack_all_loose
         'repack x mode) on generated pre-states, a dry run under the I/O interposition layer lists every mutating boundary (file '
         'open-for-write/write/flush/truncate/close, fsync/fcntl, rename/replace/link/unlink/mkdir, SQL INSERT/UPDATE/DELETE/VACUUM/'
         'commit); for EVERY boundary k a forked child is killed with os._exit right before it (buffers lost) and the post-mortem '
-        'folder is read raw (sqlite3+zlib) and through a fresh Container. Distinct = (variant, boundary index); non-trivial = '
+        'folder is read raw (sqlite3+zlib) and through a fresh Container. Additionally (E5) an uninstrumented interpreter is killed by strace on entry of the '
+        'n-th real syscall (write/pwrite64/fsync/fdatasync/rename/unlink/link/mkdir/ftruncate on container paths, incl. SQLite\'s WAL writes): '
+        'quick samples 6 syscalls of 3 variants, thorough up to 40 of every variant. Distinct = (variant, boundary index); non-trivial = '
         'variants with >= 2 boundaries.')
 ASSUMPTIONS = ['boundaries are Python-level calls (open/write/flush/close/os.*/SQL statement); effects torn inside one call are not explored here',
                'SQLite recovers its own WAL (the index is opened read-write post mortem, as the next client would)']
@@ -18,11 +20,15 @@ LEVEL_NOTE = 'trusted: the interposition layer sees every file-system call of th
 
 def run(ctx):
     for c in ('kills', 'control-runs', 'oracle-evaluations', 'pre-existing-objects-checked', 'fresh-handle-reads',
-              'boundary:sql:commit', 'boundary:write', 'boundary:rename', 'states-with-index-pointing-at-temporary-pack'):
+              'boundary:sql:commit', 'boundary:write', 'boundary:rename', 'states-with-index-pointing-at-temporary-pack',
+              'sys-kills', 'sys-boundaries-inside-sqlite'):
         ctx.require(c)
     ctx.exhaustive = True
     res = ctx.map(crashchecks.run_crash_variant, crashchecks.variant_cases(ctx, PROPERTY, 'crash'))
     ctx.extra['boundaries_per_variant'] = {r['extra']['name']: r['extra']['n'] for r in res if r.get('extra')}
+    # the same experiment at real-syscall granularity (strace attach + kill on syscall entry): SQLite's own writes, CPython's flushes
+    sys_names = None if not ctx.quick else ['pack_all_loose:yes:clpp=1@', 'add_objects_to_pack:z=1:nh1@', 'repack:keep@']
+    ctx.map(crashchecks.run_sys_variant, crashchecks.sys_cases(ctx, PROPERTY, 'syskill', names=sys_names, limit=ctx.pick(6, 40)))
     ctx.extra['exhaustive_scope'] = 'every Python-level boundary of each listed variant/pre-state pair (not exhaustive over variants or contents)'
 
 
